@@ -114,7 +114,9 @@ def json_skeleton(text):
 
 
 def nested_circuits(cirq, rng):
-    qs = cirq.LineQubit.range(3)
+    # LineQubit(-1) and LineQubit(-2) hash alike (CPython: hash(-1) == hash(-2)), so different sub-circuits with equal
+    # hashes occur: the memo of shared sub-circuits has to compare values
+    qs = rng.choice([cirq.LineQubit.range(3), [cirq.LineQubit(-1), cirq.LineQubit(-2), cirq.LineQubit(0)], [cirq.GridQubit(0, -1), cirq.GridQubit(0, -2), cirq.GridQubit(-1, 1), cirq.GridQubit(-2, 1)]])
     pool = []
 
     def circ(depth):
@@ -127,6 +129,10 @@ def nested_circuits(cirq, rng):
                 ops.append(rng.choice([cirq.X, cirq.H, cirq.Z])(rng.choice(qs)))
         fc = cirq.FrozenCircuit(ops)
         pool.append(fc)
+        if rng.random() < 0.3:
+            # a twin on permuted qubits: another value, possibly the same hash
+            twin = fc.unfreeze().transform_qubits(dict(zip(qs, qs[1:] + qs[:1]))).freeze()
+            pool.append(twin)
         return fc
 
     top = [circ(rng.choice([1, 2, 3])) for _ in range(rng.randint(1, 3))]
@@ -158,7 +164,12 @@ def check_skeleton(ctx, cirq, n):
         if got != out['skeleton']:
             ctx.report_witness('json:skeleton', 'the VAL / REF markers of the emitted JSON are not those of the model (sharing discipline changed)',
                                {'lines': [{'object': repr(obj)[:1500]}], 'impl_out': [got], 'spec_out': [out['skeleton']], 'theorem_or_correspondence': 'Model.C11.enc (C11_roundtrip)'})
-        back = cirq.read_json(json_text=text)
+        try:
+            back = cirq.read_json(json_text=text)
+        except Exception as e:
+            ctx.report_witness('json:unreadable:shared', f'read_json cannot read what to_json wrote for nested shared circuits: {type(e).__name__}: {str(e)[:100]}',
+                               {'lines': [{'object': repr(obj)[:1500]}], 'impl_out': [text[:1500]], 'spec_out': ['x'], 'theorem_or_correspondence': 'C11_roundtrip'})
+            continue
         if safe_eq(back, obj) is not True:
             ctx.report_witness('json:roundtrip:shared', 'read_json(to_json(x)) != x for nested shared circuits', {'lines': [{'object': repr(obj)[:1500]}], 'impl_out': [repr(back)[:1500]], 'spec_out': ['x'],
                                                                                                             'theorem_or_correspondence': 'C11_roundtrip'})
@@ -202,6 +213,56 @@ def instance_pool(ctx, cirq, rng):
     for i in range(20):
         pool.append((f'gen/sweep{i}', rng.choice([cirq.Linspace('a', 0, 1, 3), cirq.Points('b', [1, 2.5]), cirq.Product(cirq.Points('a', [1]), cirq.Linspace('b', 0, 1, 2)),
                                                   cirq.Zip(cirq.Points('a', [1, 2]), cirq.Points('b', [3, 4])), cirq.ZipLongest(cirq.Points('a', [1, 2]), cirq.Points('b', [3])), cirq.UnitSweep])))
+    # values derived from a value whose hash (and other cached attributes) has already been computed
+    qa, qb = cirq.LineQubit(-1), cirq.LineQubit(-2)
+    for i in range(10 if ctx.tier == 'quick' else 60):
+        c, _ = gen.random_unitary_circuit(cirq, rng, max_wires=3, max_ops=4)
+        fc = c.freeze()
+        hash(fc), fc.all_qubits(), cirq.has_unitary(fc)
+        pool.append((f'derived/frozen.with_tags{i}', fc.with_tags('calibration')))
+        pool.append((f'derived/frozen.with_tags.with_tags{i}', fc.with_tags('calibration').with_tags(7)))
+        if len(c):
+            co = cirq.CircuitOperation(fc)
+            hash(co)
+            pool.append((f'derived/circuit-op.repeat{i}', co.repeat(2)))
+            pool.append((f'derived/circuit-op.with_tags{i}', co.with_tags('t')))
+            pool.append((f'derived/circuit-op.with_qubits{i}', co.with_qubits(*[cirq.NamedQubit(f'n{j}') for j in range(len(co.qubits))])))
+            pool.append((f'derived/circuit-op.replace{i}', co.replace(repetitions=3, use_repetition_ids=True) if cirq.has_unitary(c) else co))
+            m = c[0]
+            hash(m)
+            pool.append((f'derived/moment.with_operation{i}', m.with_operation(cirq.X(cirq.LineQubit(9)))))
+            pool.append((f'derived/moment.without{i}', m.without_operations_touching(list(m.qubits)[:1])))
+            op = next(iter(c.all_operations()))
+            hash(op)
+            pool.append((f'derived/op.with_tags{i}', op.with_tags('x')))
+            tagged = op.with_tags('x')
+            hash(tagged)
+            pool.append((f'derived/op.with_tags.with_tags{i}', tagged.with_tags('y')))
+            pool.append((f'derived/op.untagged{i}', tagged.untagged))
+            pool.append((f'derived/op.controlled{i}', op.controlled_by(cirq.LineQubit(8))))
+            pool.append((f'derived/circuit.unfreeze{i}', fc.unfreeze()))
+    key = cirq.MeasurementKey('k')
+    hash(key)
+    pool.append(('derived/key.with_path', key.with_key_path_prefix('p')))
+    pool.append(('derived/key.replace', key.replace(name='z')))
+    for q in (cirq.LineQubit(1), cirq.GridQubit(1, 2), cirq.LineQid(1, 3), cirq.GridQid(1, 2, dimension=3)):
+        hash(q)
+        pool.append((f'derived/{type(q).__name__}+1', q + 1 if isinstance(q, (cirq.LineQubit, cirq.LineQid)) else q + (0, 1)))
+    for q in (cirq.LineQubit(1), cirq.GridQubit(1, 2), cirq.NamedQubit('n')):
+        hash(q)
+        pool.append((f'derived/{type(q).__name__}.with_dimension', q.with_dimension(3)))
+    ps = cirq.X(qa) * cirq.Y(qb)
+    hash(ps)
+    pool.append(('derived/pauli-string.neg', -ps))
+    pool.append(('derived/pauli-string.mul', ps * cirq.Z(cirq.LineQubit(0))))
+    pool.append(('derived/pauli-string.map_qubits', ps.map_qubits({qa: cirq.LineQubit(5), qb: qb})))
+    pr = cirq.ParamResolver({'a': 0.5})
+    hash(pr)
+    pool.append(('derived/resolver', cirq.ParamResolver(pr)))
+    # several values of one document, equal hashes, different values
+    pool.append(('collide/frozen-list', [cirq.FrozenCircuit(cirq.X(qa)), cirq.FrozenCircuit(cirq.X(qb)), cirq.FrozenCircuit(cirq.X(qa))]))
+    pool.append(('collide/circuit-ops', cirq.Circuit(cirq.CircuitOperation(cirq.FrozenCircuit(cirq.X(qa))), cirq.CircuitOperation(cirq.FrozenCircuit(cirq.X(qb))))))
+    pool.append(('collide/grid', [cirq.FrozenCircuit(cirq.H(cirq.GridQubit(0, -1))), cirq.FrozenCircuit(cirq.H(cirq.GridQubit(0, -2)))]))
     pool.append(('gen/result', cirq.ResultDict(params=cirq.ParamResolver({'a': 0.5}), records={'k': np.array([[[0, 1]], [[1, 1]]], dtype=np.uint8)})))
     pool.append(('gen/symbolic', (cirq.X ** sympy.Symbol('a')).on(qs[0])))
     pool.append(('gen/expr', cirq.Circuit(cirq.rz(sympy.Symbol('a') * 2 + sympy.pi / 3).on(qs[0]))))
